@@ -38,9 +38,31 @@
     - [sorter o]: the operations KNOWN to sort range slices in place (Exclude,
       SortAndMerge, RawBytes, Reference.RawBytes, Ranges.SortAndMerge);
     - [upto b x y]: same artifact, same mapper, same ranges (b = true: up to
-      their order);  [lval m s]: the references a References slice holds. *)
+      their order);  [lval m s]: the references a References slice holds.
+
+    Byte results (Model/RefsBytes.v, Proofs/RefsBytes.v): [bstep] / [brun] run
+    programs in which every array of bytes handed out by RawBytes /
+    Reference.RawBytes is kept ([b_bytes]: one entry per call, in call order) and
+    in which the caller may overwrite a result it was given ([BScribble j pat]);
+    [scribbles ops]: the results the caller overwrites; [algebra_ops ops]: the
+    operations of Model/RefsHeap.v among [ops].
+
+    Register files (Model/RegFile.v, Proofs/RegFile.v): [reg] = what ReadAt looks
+    at (offset in the register space, BitSize(), little-endian bytes of the
+    value); [txt_readat] / [amd_readat] = TXTPublic.ReadAt / AMDRegisters.ReadAt;
+    [rawbytes_g rdat size m rs] = Reference.RawBytes over an artifact with ReadAt
+    [rdat] and Size [size], address mapper [m], ranges [rs]; [gref_rawbytes] /
+    [grefs_rawbytes] over artifacts of every kind.
+    - [TxtWF regs]: every register lies in the space, BitSize()/8 is the width of
+      its value and > 0, no two registers claim the same address (neighbours --
+      one starts where the other ends -- are allowed);
+    - [txt_lookup regs off]: the first register whose address range contains off;
+    - [amd_wf r]: width (BitSize()+7)/8 > 0 = width of the value; [sum_width]:
+      the bytes a run of registers occupies; [amd_from regs 0 off]: the values of
+      the registers from the one that starts at off on, back to back. *)
 From Coq Require Import Permutation.
-From CSS Require Import Lib.Base Model.Ranges Model.Refs Model.RefsHeap Proofs.Ranges Proofs.Refs Proofs.RefsHeap.
+From CSS Require Import Lib.Base Model.Ranges Model.Refs Model.RefsHeap Model.RefsBytes Model.RegFile
+  Proofs.Ranges Proofs.Refs Proofs.RefsHeap Proofs.RefsBytes Proofs.RegFile.
 
 (** ** fiano ranges *)
 
@@ -436,3 +458,212 @@ Example C11_ex_heap_hyps : Wok ex_h0 ex_W0 /\ SInv ex_h0 ex_W0 ex_st.
 Proof. exact (conj ex_Wok ex_SInv). Qed.
 Example C11_ex_heap_runs : exists st', run ex_st ex_ops = Some st'.
 Proof. exact ex_runs. Qed.
+
+
+(** ** The bytes handed out belong to the caller *)
+
+(** RawBytes / Reference.RawBytes hand out a NEW array of bytes: the byte heap
+    grows by exactly that entry (no entry that exists is handed out again, and
+    artifacts are not memory of the byte heap at all). *)
+Theorem C11_bytes_result_fresh : forall bs o bs' b,
+  bstep bs (BOp o) = Some (bs', RBytes (Ok b)) ->
+  b_bytes bs' = b_bytes bs ++ [b] /\ step (b_st bs) o = Some (b_st bs', RBytes (Ok b)).
+Proof. exact bstep_fresh. Qed.
+Print Assumptions C11_bytes_result_fresh.
+
+(** After ANY sequence of operations -- further RawBytes calls on the same or on
+    other lists included -- every result handed out earlier holds the bytes it
+    held, unless the caller itself wrote into it. *)
+Theorem C11_bytes_results_kept : forall ops bs bs' j b,
+  brun bs ops = Some bs' -> ~ In j (scribbles ops) ->
+  nth_error (b_bytes bs) j = Some b -> nth_error (b_bytes bs') j = Some b.
+Proof. exact brun_bytes_kept. Qed.
+Print Assumptions C11_bytes_results_kept.
+
+(** ... in particular the result of a call is, after every continuation, what the
+    call returned. *)
+Theorem C11_bytes_result_stays : forall bs o bs1 b ops bs2,
+  bstep bs (BOp o) = Some (bs1, RBytes (Ok b)) -> brun bs1 ops = Some bs2 ->
+  ~ In (length (b_bytes bs)) (scribbles ops) ->
+  nth_error (b_bytes bs2) (length (b_bytes bs)) = Some b.
+Proof. exact bytes_result_stays. Qed.
+Print Assumptions C11_bytes_result_stays.
+
+(** The caller's write into a result changes that array and nothing else: no
+    reference list, no range array, no other result. *)
+Theorem C11_bytes_caller_write_frame : forall bs j pat bs' r,
+  bstep bs (BScribble j pat) = Some (bs', r) ->
+  b_st bs' = b_st bs /\ length (b_bytes bs') = length (b_bytes bs) /\
+  (exists b, nth_error (b_bytes bs) j = Some b /\ nth_error (b_bytes bs') j = Some (map (fun _ => pat) b)) /\
+  (forall k, k <> j -> nth_error (b_bytes bs') k = nth_error (b_bytes bs) k).
+Proof. exact bstep_scribble_frame. Qed.
+Print Assumptions C11_bytes_caller_write_frame.
+
+(** As far as reference lists and range arrays go, a program with kept byte
+    results is the program of its algebra operations: the slice-level theorems
+    above (the C11_heap theorems) hold for it. *)
+Theorem C11_bytes_programs_are_heap_programs : forall ops bs bs',
+  brun bs ops = Some bs' -> run (b_st bs) (algebra_ops ops) = Some (b_st bs').
+Proof. exact brun_algebra. Qed.
+Print Assumptions C11_bytes_programs_are_heap_programs.
+
+Example C11_ex_bytes_program : exists bs', brun eb_st eb_ops = Some bs' /\
+  b_bytes bs' = [[170; 170; 170; 170; 170; 170; 170]; [1; 2; 5; 6]; [22; 23; 24; 1; 2; 5; 6]; [22; 23; 24]].
+Proof. exact eb_runs. Qed.
+
+
+(** ** Register files *)
+
+(** Byte extraction over an arbitrary artifact is, on the artifacts made of
+    bytes, the function the theorems above are about. *)
+Theorem C11_gref_bytes_is_ref_rawbytes : forall r,
+  gref_rawbytes (mkGRef (GBytes (rart r)) (rmap r) (rranges r)) = ref_rawbytes r.
+Proof. exact gref_bytes_is_ref_rawbytes. Qed.
+Print Assumptions C11_gref_bytes_is_ref_rawbytes.
+
+(** The bytes of a list over artifacts of every kind -- registers, firmware
+    image, in-line byte strings -- are the concatenation, in list order, of the
+    bytes of its references; a reference has bytes or the call panics. *)
+Theorem C11_mixed_list_concat : forall s bs,
+  grefs_rawbytes s = Ok bs <->
+  exists parts, Forall2 (fun r b => gref_rawbytes r = Ok b) s parts /\ bs = concat parts.
+Proof. exact grefs_rawbytes_concat. Qed.
+Print Assumptions C11_mixed_list_concat.
+
+Theorem C11_gref_rawbytes_no_error : forall r, (exists v, gref_rawbytes r = Ok v) \/ gref_rawbytes r = Panic.
+Proof. exact gref_rawbytes_no_err. Qed.
+Print Assumptions C11_gref_rawbytes_no_error.
+
+(** TXTPublic.ReadAt honours the positional-read contract: never more bytes than
+    the buffer holds, the rest of the buffer untouched; whatever it reports as
+    read starts at the address of the first register containing [off] and is a
+    prefix of that register's value. *)
+Theorem C11_txt_readat_positional : forall regs p off rd,
+  txt_readat regs p off = Ok rd ->
+  0 <= rd_n rd <= zlen p /\ zlen (rd_p rd) = zlen p /\
+  skipn (Z.to_nat (rd_n rd)) (rd_p rd) = skipn (Z.to_nat (rd_n rd)) p /\
+  (0 < rd_n rd -> exists r, txt_lookup regs off = Some r /\ g_off r = off /\
+       rd_n rd = Z.min (zlen p) (zlen (g_val r)) /\
+       firstn (Z.to_nat (rd_n rd)) (rd_p rd) = firstn (Z.to_nat (rd_n rd)) (g_val r)).
+Proof. exact txt_readat_positional. Qed.
+Print Assumptions C11_txt_readat_positional.
+
+(** Every present register is readable at its address, whatever its neighbours
+    (a register may start exactly where another one ends): a buffer of exactly
+    its width receives exactly its value, without error. *)
+Theorem C11_txt_readat_register : forall regs r, TxtWF regs -> In r regs ->
+  txt_readat regs (repeat 0 (Z.to_nat (g_bits r / 8))) (g_off r)
+  = Ok (mkRd (g_bits r / 8) (g_val r) 0).
+Proof. exact txt_readat_register_exact. Qed.
+Print Assumptions C11_txt_readat_register.
+
+(** ... and a buffer of any length receives the first min(len p, width) bytes
+    (io.ErrShortWrite when the buffer is shorter, io.EOF when it is empty). *)
+Theorem C11_txt_readat_register_any_buffer : forall regs r p, TxtWF regs -> In r regs ->
+  txt_readat regs p (g_off r) = Ok (let '(p', n, e) := bwrite p 0 (g_val r) in mkRd n p' e).
+Proof. exact txt_readat_register. Qed.
+Print Assumptions C11_txt_readat_register_any_buffer.
+
+(** A reference to exactly one present register has the bytes of that register. *)
+Theorem C11_txt_reference_one_register : forall regs r, TxtWF regs -> In r regs ->
+  g_off r + g_bits r / 8 < 9223372036854775808 ->
+  rawbytes_g (txt_readat regs) txt_size MNil [mkR (g_off r) (g_bits r / 8)] = Ok (g_val r).
+Proof. exact txt_reference_one_register. Qed.
+Print Assumptions C11_txt_reference_one_register.
+
+(** If a reference to a TXT register file has bytes, they are -- merged range by
+    merged range, through the address space -- prefixes of the values of the
+    registers that start at the resolved offsets. *)
+Theorem C11_txt_bytes_sound : forall regs m rs bs, Forall okr rs ->
+  rawbytes_g (txt_readat regs) txt_size m rs = Ok bs ->
+  bs = flat_map (fun mr => txt_full regs (to_i64 (roff mr)) (rlen mr))
+                (flat_map (mapped1 txt_size m) (ranges_sm rs)).
+Proof. exact txt_bytes_sound. Qed.
+Print Assumptions C11_txt_bytes_sound.
+
+(** AMDRegisters.ReadAt: never more bytes than the buffer holds; when bytes are
+    reported the WHOLE buffer holds the values of the registers, back to back,
+    from the one that starts at [off] on. *)
+Theorem C11_amd_readat_positional : forall regs p off rd,
+  amd_readat regs p off = Ok rd ->
+  0 <= rd_n rd <= zlen p /\ zlen (rd_p rd) = zlen p /\
+  (0 < rd_n rd -> rd_n rd = zlen p /\ rd_p rd = firstn (Z.to_nat (zlen p)) (amd_from regs 0 off)).
+Proof. exact amd_readat_positional. Qed.
+Print Assumptions C11_amd_readat_positional.
+
+(** A read that starts where a register starts and is as long as a run of
+    registers delivers exactly their values, without error. *)
+Theorem C11_amd_readat_run : forall pre mid post p, Forall amd_wf (pre ++ mid ++ post) -> mid <> [] ->
+  zlen p = sum_width mid ->
+  amd_readat (pre ++ mid ++ post) p (sum_width pre) = Ok (mkRd (zlen p) (concat (map g_val mid)) 0).
+Proof. exact amd_readat_run. Qed.
+Print Assumptions C11_amd_readat_run.
+
+Theorem C11_amd_bytes_sound : forall regs m rs bs, Forall okr rs ->
+  rawbytes_g (amd_readat regs) (amd_size regs) m rs = Ok bs ->
+  bs = flat_map (fun mr => amd_full regs (to_i64 (roff mr)) (rlen mr))
+                (flat_map (mapped1 (amd_size regs) m) (ranges_sm rs)).
+Proof. exact amd_bytes_sound. Qed.
+Print Assumptions C11_amd_bytes_sound.
+
+(** The hypotheses are satisfiable: TXT.STS | TXT.ESTS (neighbours), ACM_STATUS |
+    TXT.DPR (neighbours), ACM_POLICY_STATUS; MP0_C2P_MSG_37 | MP0_C2P_MSG_38. *)
+Definition xSTS := mkReg 0 64 [8; 7; 6; 5; 4; 3; 2; 1].
+Definition xESTS := mkReg 8 8 [90].
+Definition xACMSTS := mkReg 808 64 [190; 186; 254; 202; 0; 0; 0; 0].
+Definition xDPR := mkReg 816 32 [170; 187; 204; 221].
+Definition xACMPOL := mkReg 888 64 [136; 119; 102; 85; 68; 51; 34; 17].
+Definition xTxt : list reg := [xSTS; xESTS; xACMSTS; xDPR; xACMPOL].
+Definition xAmd : list reg := [mkReg 0 32 [4; 3; 2; 1]; mkReg 0 32 [56; 56; 56; 56]].
+
+Example C11_ex_txt_wf : TxtWF xTxt.
+Proof.
+  split.
+  - unfold xTxt. repeat (apply Forall_cons; [unfold reg_wf; cbn; lia|]). apply Forall_nil.
+  - unfold xTxt. repeat (apply FOP_cons; [repeat (apply Forall_cons; [unfold regs_apart; cbn; lia|]); apply Forall_nil|]).
+    apply FOP_nil.
+Qed.
+
+Example C11_ex_mixed_list :
+  grefs_rawbytes [ mkGRef (GRegs 1 0 (RTxt xTxt)) MNil [mkR 8 1];
+                   mkGRef (GRegs 1 0 (RTxt xTxt)) MNil [mkR 0 8];
+                   mkGRef (GBytes xImg) MPhys [mkR 4294967290 4];
+                   mkGRef (GRegs 2 1 (RAmd xAmd)) MNil [mkR 4 4; mkR 0 4];
+                   mkGRef (GBytes xRaw) MNil [mkR 1 3] ]
+  = Ok ([90] ++ [8; 7; 6; 5; 4; 3; 2; 1] ++ [12; 13; 14; 15] ++ [4; 3; 2; 1; 56; 56; 56; 56] ++ [31; 32; 33]).
+Proof. vm_compute. reflexivity. Qed.
+
+Example C11_ex_amd_wf : Forall amd_wf xAmd /\ sum_width xAmd = 8.
+Proof. split; [|reflexivity]. repeat (apply Forall_cons; [unfold amd_wf; cbn; lia|]). apply Forall_nil. Qed.
+
+(** REFUTED (finding C11-TXTPublic-neighbouring-registers-one-reference): two
+    present registers that are neighbours in the register space -- each readable,
+    each referable on its own -- have no bytes when ONE reference names both:
+    Reference.RawBytes merges the adjacent ranges and TXTPublic.ReadAt serves one
+    register per call. *)
+Theorem C11_txt_neighbours_one_reference_refuted : exists regs r1 r2,
+  TxtWF regs /\ In r1 regs /\ In r2 regs /\ g_off r2 = g_off r1 + g_bits r1 / 8 /\
+  rawbytes_g (txt_readat regs) txt_size MNil [mkR (g_off r1) (g_bits r1 / 8)] = Ok (g_val r1) /\
+  rawbytes_g (txt_readat regs) txt_size MNil [mkR (g_off r2) (g_bits r2 / 8)] = Ok (g_val r2) /\
+  rawbytes_g (txt_readat regs) txt_size MNil
+    [mkR (g_off r1) (g_bits r1 / 8); mkR (g_off r2) (g_bits r2 / 8)] = Panic.
+Proof.
+  exists xTxt, xSTS, xESTS. split; [exact C11_ex_txt_wf|].
+  split; [left; reflexivity|]. split; [right; left; reflexivity|].
+  split; [reflexivity|]. split; [vm_compute; reflexivity|]. split; vm_compute; reflexivity.
+Qed.
+Print Assumptions C11_txt_neighbours_one_reference_refuted.
+
+(** REFUTED (finding C11-TXTPublic-public-key-unreadable): the hypothesis
+    "BitSize()/8 is the width of the value" of [TxtWF] cannot be dropped -- a
+    present 256-bit register whose BitSize() is uint8(256) = 0 is not found at
+    its own address. *)
+Theorem C11_txt_wide_register_unreadable_refuted : exists regs r p,
+  In r regs /\ 0 <= g_off r /\ 0 < zlen (g_val r) /\ zlen p = zlen (g_val r) /\
+  txt_readat regs p (g_off r) = Ok (mkRd 0 p 2).
+Proof.
+  exists [xSTS; mkReg 1024 0 (repeat 7 32)], (mkReg 1024 0 (repeat 7 32)), (repeat 0 32).
+  split; [right; left; reflexivity|]. split; [cbn; lia|]. split; [vm_compute; reflexivity|].
+  split; vm_compute; reflexivity.
+Qed.
+Print Assumptions C11_txt_wide_register_unreadable_refuted.
